@@ -348,13 +348,54 @@ def race_sites(log):
         stacks = re.split(r"\n(?=Previous |Goroutine )", rep)
         sites = []
         for st in stacks[:2]:
-            frames = re.findall(r"go-incr\.(?:\(\*?([\w\[\],. ]+?)\)\.)?(\w+)(?:\[[^\]]*\])?\(\)\n\s+(/repo/[\w/.]+:\d+)", st)
+            frames = re.findall(r"go-incr\.(?:\(\*?([\w\[\],. ]+?)\)\.)?(\w+)(?:\[[^\]]*\])?\(\)\n\s+(/\S+\.go:\d+)", st)
             names = [f[1] for f in frames]
-            lines = [f[2] for f in frames]
+            lines = ["/repo/" + f[2].split("/go-incr/")[-1].split("/")[-1] if "/incrutil/" not in f[2] else "/repo/incrutil/" + f[2].split("/incrutil/")[-1] for f in frames]
             sites.append((names, lines))
         if len(sites) == 2:
             out.append(sites)
     return out
+
+
+def report_races(ctx, out, where, known_prefix, replay):
+    """one violation per distinct pair of library sites in the race detector's reports"""
+    seen = set()
+    for sites in race_sites(out):
+        names = sites[0][0] + sites[1][0]
+        a = sites[0][1][0] if sites[0][1] else "?"
+        b = sites[1][1][0] if sites[1][1] else "?"
+        kind = "bind-teardown-vs-recompute" if any(f in TEARDOWN_FRAMES or f.startswith("bindLeftChange") for f in names) else "other"
+        key = "%srace:%s:%s|%s" % (known_prefix, kind, min(a, b), max(a, b))
+        if key in seen:
+            continue
+        seen.add(key)
+        ctx.violation("data race during ParallelStabilize on %s: %s (%s) vs %s (%s)"
+                      % (where, sites[0][0][:1], a, sites[1][0][:1], b), key,
+                      dict(replay, kind="race", stacks=[sites[0][1][:6], sites[1][1][:6]]))
+    return len(seen)
+
+
+def run_parscen(ctx, K):
+    """hand-written ParallelStabilize scenarios under the race detector"""
+    import json as _json
+    b = K.go_build(ctx, "parscen", race=True)
+    if not b:
+        return
+    report = os.path.join(ctx.workdir, "parscen.json")
+    args = [b, "-seed", str(ctx.seed), "-rounds", str(tier_n(ctx, 40, 600)), "-json", report]
+    rc, out = K.sh(args, 3000, cwd=ctx.workdir, env=dict(K.GOENV, GORACE="halt_on_error=0 exitcode=66"))
+    open(os.path.join(ctx.workdir, "parscen.log"), "w").write(out)
+    rep = None
+    if os.path.exists(report):
+        rep = _json.load(open(report))
+        rep["name"] = "parscen-race"
+        ctx.reports.append(rep)
+        for v in rep.get("violations") or []:
+            ctx.violation(v["what"], v["key"], v["replay"])
+    report_races(ctx, out, "hand-written scenarios (harness/cmd/parscen)", "parscen:", dict(seed=ctx.seed, cmd=" ".join(args)))
+    if rc not in (0, 66) or rep is None:
+        ctx.violation("the process running the ParallelStabilize scenarios died (rc=%s): %s" % (rc, out.strip()[-400:]), "parscen:crash",
+                      dict(kind="crash", seed=ctx.seed, cmd=" ".join(args), tail=out[-2000:]))
 
 
 def run_par_stream(ctx, K, binary, profile, par, n, name, race, known_prefix="", claim="C04", include=ORACLES_ALL):
@@ -374,16 +415,8 @@ def run_par_stream(ctx, K, binary, profile, par, n, name, race, known_prefix="",
         ctx.reports.append(rep)
         for v in rep.get("violations") or []:
             ctx.violation(v["what"], known_prefix + v["key"], v["replay"])
-    for sites in race_sites(out):
-        names = sites[0][0] + sites[1][0]
-        a = sites[0][1][0] if sites[0][1] else "?"
-        b = sites[1][1][0] if sites[1][1] else "?"
-        kind = "bind-teardown-vs-recompute" if any(f in TEARDOWN_FRAMES or f.startswith("bindLeftChange") for f in names) else "other"
-        key = "%srace:%s:%s|%s" % (known_prefix, kind, min(a, b), max(a, b))
-        ctx.violation("data race during ParallelStabilize(parallelism %d) on generated %s histories: %s (%s) vs %s (%s)"
-                      % (par, profile, sites[0][0][:1], a, sites[1][0][:1], b), key,
-                      dict(kind="race", profile=profile, parallelism=par, seed=ctx.seed, stacks=[sites[0][1][:6], sites[1][1][:6]],
-                           cmd=" ".join(args)))
+    report_races(ctx, out, "generated %s histories at parallelism %d" % (profile, par), known_prefix,
+                 dict(profile=profile, parallelism=par, seed=ctx.seed, cmd=" ".join(args)))
     if rc not in (0, 66) or rep is None:
         ctx.violation("the process running ParallelStabilize(parallelism %d) on generated %s histories died (rc=%s): %s"
                       % (par, profile, rc, out.strip()[-400:]), known_prefix + "crash:parallel-pass",
@@ -408,6 +441,11 @@ def run_C04(ctx, K):
     # 3. graphs with binds, real overlap, race detector on, in a child process (a known finding lives here)
     for par in ((4,) if ctx.quick() else (4, 16)):
         run_par_stream(ctx, K, br, "binds", par, tier_n(ctx, 300, 2000), "race-binds-p%d" % par, True)
+    # 4. failing and panicking node functions (generated online on the parallel graph), race detector on
+    for profile in ("faults", "alwaysfaults"):
+        run_par_stream(ctx, K, br, profile, 4, tier_n(ctx, 150, 1500), "race-%s-p4" % profile, True)
+    # 5. shapes outside the generated alphabet
+    run_parscen(ctx, K)
 
 
 def run_C09(ctx, K):
